@@ -25,6 +25,8 @@ class Cfg:
         strip_suffix=(), prefix="", suffix="", zero_cap=False, min_len=None, max_len=None, max_n=None, max_ee=None, max_aer=None,
         casava=False, discard_trimmed=False, discard_untrimmed=False, untrimmed_output=False, too_short_output=False,
         too_long_output=False, demux=False, info_file=False, fasta=False, rename=None,
+        side_files=(),     # subset of ("rest", "wildcard"): --rest-file / --wildcard-file, which must not influence anything else
+        index=False,       # True: run without --no-index (only for adapter sets for which no index can be built, C09)
     )
 
     def __init__(self, **kw):
@@ -39,7 +41,7 @@ class Cfg:
     @staticmethod
     def from_json(d):
         d = dict(d)
-        for k in ("cuts", "adapters", "strip_suffix"):
+        for k in ("cuts", "adapters", "strip_suffix", "side_files"):
             if k in d:
                 d[k] = tuple(tuple(x) if isinstance(x, list) else x for x in d[k])
         return Cfg(**d)
@@ -116,6 +118,8 @@ class Cfg:
             g.append(["--too-long-output", os.path.join(d, "toolong." + self.ext())])
         if self.info_file:
             g.append(["--info-file", os.path.join(d, "info.tsv")])
+        for k in self.side_files:
+            g.append(["--%s-file" % k, os.path.join(d, "side.%s.txt" % k)])
         return g
 
     def ext(self):
@@ -132,7 +136,8 @@ class Cfg:
             it = iter(kept)
             groups = [next(it) if x[0] in keep else x for x in groups]
         out = "out.{name}." + self.ext() if self.demux else "out." + self.ext()
-        argv = ["--no-index", "--json", os.path.join(d, "report.json"), "-o", os.path.join(d, out)]
+        # position 0 is either --no-index or a no-op, so that the fixed positions of the other arguments stay
+        argv = ["--cores=1" if self.index else "--no-index", "--json", os.path.join(d, "report.json"), "-o", os.path.join(d, out)]
         for x in groups:
             argv += x
         argv += list(extra)
@@ -594,6 +599,10 @@ def rand_cfg(rng, focus=()):
         if f("demux", 0.12) and not c.discard_trimmed:
             c.demux = True
     c.info_file = f("info", 0.3)
+    if nad and f("sidefiles", 0.1) and not any("..." in spec for _, spec in ads):
+        # (with a linked adapter --rest-file/--wildcard-file end in an AttributeError traceback: LinkedMatch has neither rest() nor
+        # wildcards(); a loud refusal outside the 20 properties, noted in DESIGN.md)
+        c.side_files = tuple(k for k in ("rest", "wildcard") if rng.random() < 0.6)
     return c, plant
 
 
